@@ -1,0 +1,148 @@
+// Copyright 2023-2024 Google LLC
+// Copyright 2025- flacenc-rs developers
+//
+// Licensed under the Apache License, Version 2.0 (the "License");
+// you may not use this file except in compliance with the License.
+// You may obtain a copy of the License at
+//
+//      http://www.apache.org/licenses/LICENSE-2.0
+//
+// Unless required by applicable law or agreed to in writing, software
+// distributed under the License is distributed on an "AS IS" BASIS,
+// WITHOUT WARRANTIES OR CONDITIONS OF ANY KIND, either express or implied.
+// See the License for the specific language governing permissions and
+// limitations under the License.
+
+//! Verification hooks (only compiled with `--cfg flacenc_verif`).
+//!
+//! Every blocking operation of the multi-thread encoder reports to an optional
+//! process-global [`Hook`] before it happens. When no hook is
+//! installed each point costs one relaxed atomic load.
+
+use std::sync::atomic::AtomicBool;
+use std::sync::atomic::Ordering;
+use std::sync::Arc;
+use std::sync::RwLock;
+use std::thread::ThreadId;
+
+/// Object a blocking operation is applied to.
+#[derive(Clone, Copy, Debug, Eq, PartialEq)]
+pub enum Obj {
+    /// Queue of buffer ids that can be refilled.
+    RefillQ,
+    /// Queue of buffer ids that are ready for encoding (and stop tokens).
+    EncodeQ,
+    /// Queue of byte blocks waiting to be hashed.
+    HashQ,
+    /// Frame buffer with the given id.
+    Buffer(usize),
+    /// Sink collecting encoded frames (with the frame number being pushed).
+    ResultSink(usize),
+    /// Inner context of the asynchronous context.
+    HashCtx,
+    /// A thread being joined.
+    Thread(ThreadId),
+}
+
+/// Kind of blocking operation.
+#[derive(Clone, Copy, Debug, Eq, PartialEq)]
+pub enum Op {
+    /// Channel receive.
+    Recv,
+    /// Channel send.
+    Send,
+    /// Mutex lock.
+    Lock,
+    /// Thread join.
+    Join,
+}
+
+/// Role of a thread started by the encoder.
+#[derive(Clone, Copy, Debug, Eq, PartialEq)]
+pub enum Role {
+    /// Frame encoding worker.
+    Worker,
+    /// MD5 hashing thread.
+    Hasher,
+}
+
+/// Observer/controller of blocking operations.
+pub trait Hook: Send + Sync {
+    /// Called by the parent after it spawned `child`.
+    fn spawned(&self, child: ThreadId, role: Role);
+    /// Called before a blocking operation. `ready` tells whether the operation
+    /// could complete without blocking right now.
+    fn before(&self, op: Op, obj: Obj, ready: &dyn Fn() -> bool);
+    /// Called when a thread that passed a hook point terminates.
+    fn thread_end(&self);
+}
+
+static ENABLED: AtomicBool = AtomicBool::new(false);
+static HOOK: RwLock<Option<Arc<dyn Hook>>> = RwLock::new(None);
+
+struct EndToken;
+
+impl Drop for EndToken {
+    fn drop(&mut self) {
+        if let Some(h) = current() {
+            h.thread_end();
+        }
+    }
+}
+
+thread_local! {
+    static END_TOKEN: std::cell::RefCell<Option<EndToken>> = const { std::cell::RefCell::new(None) };
+}
+
+/// Installs (or removes) the process-global hook.
+pub fn set_hook(h: Option<Arc<dyn Hook>>) {
+    let mut slot = HOOK.write().unwrap();
+    ENABLED.store(h.is_some(), Ordering::SeqCst);
+    *slot = h;
+}
+
+fn current() -> Option<Arc<dyn Hook>> {
+    if !ENABLED.load(Ordering::Relaxed) {
+        return None;
+    }
+    HOOK.read().ok().and_then(|g| g.clone())
+}
+
+/// Makes sure `thread_end` is reported when the calling thread terminates.
+pub fn plant_end_token() {
+    let _ = END_TOKEN.try_with(|t| {
+        let mut t = t.borrow_mut();
+        if t.is_none() {
+            *t = Some(EndToken);
+        }
+    });
+}
+
+pub(crate) fn spawned(child: ThreadId, role: Role) {
+    if let Some(h) = current() {
+        h.spawned(child, role);
+    }
+}
+
+pub(crate) fn before(op: Op, obj: Obj, ready: &dyn Fn() -> bool) {
+    if let Some(h) = current() {
+        plant_end_token();
+        h.before(op, obj, ready);
+    }
+}
+
+pub(crate) fn recv_ready<T>(rx: &crossbeam_channel::Receiver<T>) -> bool {
+    let mut sel = crossbeam_channel::Select::new();
+    sel.recv(rx);
+    sel.try_ready().is_ok()
+}
+
+pub(crate) fn send_ready<T>(tx: &crossbeam_channel::Sender<T>) -> bool {
+    let mut sel = crossbeam_channel::Select::new();
+    sel.send(tx);
+    sel.try_ready().is_ok()
+}
+
+pub(crate) fn lock_ready<T>(m: &std::sync::Mutex<T>) -> bool {
+    !matches!(m.try_lock(), Err(std::sync::TryLockError::WouldBlock))
+}
